@@ -40,7 +40,7 @@ def build(tier, seed):
              a_task(PROP, _with_search(display.prune_codeunit)), a_task(PROP, _with_search(display.prune_type)),
              a_task(PROP, _with_search(display.prune_blockdata)), a_task(PROP, display.str_method), a_task(PROP, display.basenode_url_block),
              a_task(PROP, display.set_display),
-             Task(f"{PROP}.S.EntitySettings", PROP, "ford.settings.EntitySettings.from_project_settings", lambda: display.entity_settings_default_display(PROP)),
+             Task(f"{PROP}.S.EntitySettings", PROP, "ford.settings.EntitySettings.from_project_settings", lambda: display.entity_settings_default_display(PROP) + display.project_lists_follow_selection(PROP)),
              bounded_task()]
     meta = {
         "trusted_base": TRUSTED_BASE,
